@@ -96,16 +96,24 @@ def pairs():
         dict(name="Anomaliser(PELT)+PELT", tunes="none", shareable=False, scorer=lambda: L2Cost(), cuts=[[0, 4], [2, 9]],
              d1=("anomaliser", "cost", dict(stat_lower=-1.0, stat_upper=1.0), dict(stat_lower=-3.0, stat_upper=2.0)),
              d2=(PELT, "cost", dict(min_segment_length=1, penalty_scale=0.2), dict(min_segment_length=3, penalty_scale=0.5))),
+        # the anomaliser d1 is given the user's OWN detector object d2 as hyper-parameter: it must fit a clone, so d2 stays
+        # exactly what its own history made it (and d1 is unaffected by what the user does with d2).  d2's two parameter
+        # sets are equal, so that set_params on d2 never changes what d1 would clone.
+        dict(name="Anomaliser wrapping the user's PELT object + that PELT", tunes="none", shareable=False, wraps_d2=True,
+             scorer=lambda: L2Cost(), cuts=[[0, 4], [2, 9]],
+             d1=("anomaliser", "cost", dict(stat_lower=-1.0, stat_upper=1.0), dict(stat_lower=-3.0, stat_upper=2.0)),
+             d2=(PELT, "cost", dict(min_segment_length=1, penalty_scale=0.3), dict(min_segment_length=1, penalty_scale=0.3))),
     ]
 
 
-def build(spec, params, scorer):
+def build(spec, params, scorer, wrapped=None):
     from skchange.anomaly_detectors import StatThresholdAnomaliser
     from skchange.change_detectors import PELT
 
     cls, kw, p1, p2 = spec
     if cls == "anomaliser":
-        return StatThresholdAnomaliser(PELT(cost=scorer, min_segment_length=1, penalty_scale=0.3), **params)
+        inner = wrapped if wrapped is not None else PELT(cost=scorer, min_segment_length=1, penalty_scale=0.3)
+        return StatThresholdAnomaliser(inner, **params)
     plain = {k: v for k, v in params.items() if "__" not in k}
     nested = {k.split("__", 1)[1]: v for k, v in params.items() if "__" in k}
     if nested:  # construct the scorer WITH the nested value (the fresh object never goes through set_params)
@@ -145,7 +153,8 @@ def run_history(args):
     scorers = {"c0": pair["scorer"](), "c1": pair["scorer"](), "c2": pair["scorer"]()}
     cost_of = {"d1": "c0" if shared else "c1", "d2": "c0" if shared else "c2"}
     pname = {"d1": "p1", "d2": "p1"}
-    objs = {d: build(pair[d], pair[d][2], scorers[cost_of[d]]) for d in ("d1", "d2")}
+    objs = {"d2": build(pair["d2"], pair["d2"][2], scorers[cost_of["d2"]])}
+    objs["d1"] = build(pair["d1"], pair["d1"][2], scorers[cost_of["d1"]], wrapped=objs["d2"] if pair.get("wraps_d2") else None)
     spec_of = {"d1": pair["d1"], "d2": pair["d2"]}
     fails = []
     memo = {}
@@ -395,7 +404,7 @@ def run(tier: str) -> int:
     chk.rule = ("stage A: all histories up to MaxLen over an alphabet of ~70 calls (2 detectors x {set_params x2, clone, deepcopy, fit_predict/fit_transform/update_predict x4 datasets, "
                 "fit/update x4 datasets, predict/transform/transform_scores x4 datasets} + scorer fit/evaluate), shared or "
                 "private scorer object, fit tuning none/one/both; stage B: histories of length 3 (a seeded slice, all in "
-                "thorough) and sampled longer ones, each executed on the compatible detector pairs out of 6 "
+                "thorough) and sampled longer ones, each executed on the compatible detector pairs out of 10 "
                 "(PELT, MovingWindow, Seeded/Circular binary segmentation, CAPA, MVCAPA, StatThresholdAnomaliser).  "
                 "Update-merge stage: every history fit(B1), update(B2)[, update(B3)] over ALL non-empty label sets of 0..L-1 "
                 "(appended, overlapping, re-sent, interleaved, gappy) x 5 index kinds, through a user-defined detector that records "
